@@ -255,7 +255,7 @@ func execConvDec(a []string) string {
 	return "ok " + renderGo(dst.Elem())
 }
 
-// convre <source type> | <target type> | <value 1> | <value 2>
+// convre <source type> | <target type> | <value 1> | <value 2> [| <value 3> …]
 // the destination (and the destination of the way back) is used twice: what it held after the first
 // conversion must not show in the second
 func execConvReuse(a []string) string {
@@ -265,7 +265,7 @@ func execConvReuse(a []string) string {
 	dst := reflect.New(tt.rtype())
 	back := reflect.New(st.rtype())
 	res := ""
-	for _, vs := range p[2:4] {
+	for _, vs := range p[2:] {
 		src, _ := parseGVal(st, vs)
 		if err := conversion.ConvertFrom(dst.Interface(), src.Interface()); err != nil {
 			return "err"
@@ -697,10 +697,21 @@ func runC20(r *Rand, tier string, o *Out) {
 					v1, v2 = v2, v1 // the longer one first, most of the time
 				}
 				tt := compatTarget(r, st, o)
-				res := o.Do("P", fmt.Sprintf("convre %s | %s | %s | %s", st.tokens(), tt.tokens(), v1, v2), true)
-				want := func() string { v, _ := parseGVal(st, strings.Fields(v2)); return renderGo(v) }()
+				if r.Chance(30) {
+					tt = st // the very same type: nothing to convert, everything to copy
+				}
+				vals := v1 + " | " + v2
+				last := v2
+				if r.Chance(50) {
+					// long, short, then something in between: the destination has room it does not use
+					last = genValTokens(r, st)
+					vals += " | " + last
+					o.Count("case:destination-reused-three-times")
+				}
+				res := o.Do("P", fmt.Sprintf("convre %s | %s | %s", st.tokens(), tt.tokens(), vals), true)
+				want := func() string { v, _ := parseGVal(st, strings.Fields(last)); return renderGo(v) }()
 				if !strings.HasSuffix(res, " back "+want) {
-					o.Fail("a destination used twice keeps what it held: "+st.kind, fmt.Sprintf("convre %s | %s | %s | %s => %s (want back %s)", st.tokens(), tt.tokens(), v1, v2, res, want))
+					o.Fail("a destination used twice keeps what it held: "+st.kind, fmt.Sprintf("convre %s | %s | %s => %s (want back %s)", st.tokens(), tt.tokens(), vals, res, want))
 				}
 				o.Count("case:destination-reused")
 				continue
